@@ -63,6 +63,7 @@ type runner struct {
 	constructD int
 	constructP int
 	keepRec    bool
+	inject     bool // mismatchCase: feed one stray packet with a contradicting type before the run
 	alternate  bool // mismatchCase: deterministic pre-history (every second packet lost)
 	retuned    bool
 	perKind    map[string]int
@@ -722,6 +723,15 @@ func (x *runner) mismatchCase(sd, sp, rd, rp int, start uint32, prehist int, los
 			}
 		}
 	}
+	// a stray packet whose type contradicts its position (e.g. left over from an earlier session of
+	// the peer): even a decoder that already has the sender's ratio starts tuning and must come back
+	if x.inject {
+		grp := x.emitGroup(lens, true)
+		stray := append([]byte(nil), grp[0].pkt...)
+		binary.LittleEndian.PutUint16(stray[4:], typeParit)
+		x.o.Count("pre:stray-packet")
+		x.feed(stray, nil)
+	}
 	// the uninterrupted run starts at any residue: the first `skip` packets of its first group are lost
 	skip := x.g.Intn(n)
 	if x.alternate {
@@ -999,7 +1009,9 @@ func Run(o *hx.Out, g *hx.Rng, tier string) {
 							pre = 10 + g.Intn(60)
 							lossy = true
 						}
+						x.inject = sd == rd && sp == rp || g.Chance(10)
 						x.mismatchCase(sd, sp, rd, rp, start, pre, lossy)
+						x.inject = false
 					}
 				}
 			}
